@@ -88,6 +88,9 @@ pub enum Fault {
     Reenter { seam: SeamKind, n: u32, op: Box<Op> },
     /// a sink fault (Render only)
     Write { fault: WriteFault },
+    /// the caller's code is slow: a real sleep of `ms` milliseconds at the n-th seam of that kind
+    /// (the library has no clock seam; whatever reads the wall clock sees a stalled caller)
+    Stall { seam: SeamKind, n: u32, ms: u32 },
 }
 
 impl Fault {
@@ -95,7 +98,7 @@ impl Fault {
         match self {
             Fault::IterPanic { .. } | Fault::CbPanic { .. } => true,
             Fault::Write { fault } => fault.is_hard(),
-            Fault::Reenter { .. } => false,
+            Fault::Reenter { .. } | Fault::Stall { .. } => false,
         }
     }
 }
@@ -108,6 +111,14 @@ pub struct Op {
     pub input: usize,
     #[serde(default, skip_serializing_if = "Vec::is_empty")]
     pub faults: Vec<Fault>,
+    /// the input is handed to the library as a sub-slice starting `align` bytes into a buffer:
+    /// the same text at another address (not part of the key: results must not depend on it)
+    #[serde(default, skip_serializing_if = "is_zero")]
+    pub align: u8,
+}
+
+fn is_zero(x: &u8) -> bool {
+    *x == 0
 }
 
 impl Op {
@@ -161,6 +172,9 @@ impl Scenario {
 
 pub struct Pool {
     pub inputs: Vec<String>,
+    pub xl: String,
+    /// one input in `xl_den` is the very long recipe (it is expensive)
+    pub xl_den: u32,
 }
 
 impl Pool {
@@ -192,7 +206,18 @@ impl Pool {
             let mut r = Rng::new(mix2(0xB16B_16, i));
             inputs.push(gen::recipe_large(&mut r));
         }
-        Pool { inputs }
+        // one very long recipe (> 64 KiB of step text): size thresholds and time budgets. Kept
+        // apart from the pool: it is expensive, so it is drawn rarely (1 input in 1 500)
+        let xl_input;
+        {
+            let mut r = Rng::new(0x00E1_7A11);
+            let mut xl = String::new();
+            while xl.len() < 300_000 {
+                xl.push_str(&gen::recipe_large(&mut r));
+            }
+            xl_input = Some(xl);
+        }
+        Pool { inputs, xl: xl_input.unwrap_or_default(), xl_den: 1500 }
     }
 }
 
@@ -275,7 +300,7 @@ fn gen_plain_op(r: &mut Rng, nparsers: usize, ninputs: usize, sw: &Swarm) -> Op 
         },
         _ => OpKind::Render { color: r.chance(1, 2) },
     };
-    Op { kind, parser, input, faults: vec![] }
+    Op { kind, parser, input, faults: vec![], align: 0 }
 }
 
 /// number of events the pull parser yields — used only to *place* faults where
@@ -328,6 +353,8 @@ pub fn gen_scenario(run_seed: u64, pool: &Pool) -> Scenario {
             let of = r.below(i);
             twin_pairs.push((of, i));
             twin(&inputs[of], &mut r)
+        } else if r.chance(1, pool.xl_den) {
+            pool.xl.clone()
         } else if r.chance(3, 5) {
             r.pick(&pool.inputs).clone()
         } else if r.chance(1, 25) {
@@ -440,6 +467,16 @@ pub fn gen_scenario(run_seed: u64, pool: &Pool) -> Scenario {
                     }
                 }
             }
+            // the same text at another address
+            if fr.chance(1, 3) {
+                op.align = fr.range(1, 7) as u8;
+            }
+            // a stalled caller, mostly on big inputs (time budgets, expiring caches)
+            let big = inputs[op.input].len() > 40_000;
+            if (big && fr.chance(1, 2)) || fr.chance(1, 600) {
+                let seam = if op.uses_adapter().is_some() { SeamKind::Iter } else if has_cb { SeamKind::Cb } else { SeamKind::Trace };
+                op.faults.push(Fault::Stall { seam, n: fr.below(3) as u32, ms: 130 });
+            }
             ops.push(op);
         }
         threads.push(ops);
@@ -467,7 +504,7 @@ pub fn gen_scenario(run_seed: u64, pool: &Pool) -> Scenario {
         };
         for input in [a, b] {
             let t = tr.below(threads.len());
-            threads[t].push(Op { kind: kind.clone(), parser, input, faults: vec![] });
+            threads[t].push(Op { kind: kind.clone(), parser, input, faults: vec![], align: 0 });
         }
     }
     Scenario {
